@@ -135,7 +135,12 @@ func (e *Env) doSched(op *Op) {
 			s.mu.Unlock()
 			p.arrive <- "start"
 			<-p.release
-			c.Run(ops)
+			for k := range ops {
+				if k > 0 {
+					s.gate("op") // every operation boundary is a scheduling point
+				}
+				c.Do(&ops[k])
+			}
 			close(p.finished)
 		}()
 		<-p.arrive // parked at "start"
@@ -149,7 +154,7 @@ func (e *Env) doSched(op *Op) {
 		case <-p.finished:
 			p.done, p.running = true, false
 			return "done"
-		case <-time.After(300 * time.Millisecond):
+		case <-time.After(120 * time.Millisecond):
 			p.running = true
 			return "waiting" // blocked on a lock held by a paused process (or really stuck)
 		}
@@ -166,6 +171,12 @@ func (e *Env) doSched(op *Op) {
 	for _, pid := range op.Schedule {
 		if pid >= 1 && pid <= len(procs) {
 			step(procs[pid-1])
+		} else if pid == 0 && op.Seg != 0 {
+			// the storage of the segment starts failing at this point of the schedule
+			if h := e.segs[op.Seg]; h != nil && h.file != nil {
+				h.file.Close()
+				e.emit(M{"ev": "close_file", "seg": op.Seg, "how": "schedule"})
+			}
 		}
 	}
 	// drain: run everything to completion round robin (bounded)
